@@ -25,7 +25,7 @@ type rewRef struct {
 	PoolOut  map[string]*big.Int            // cumulative coins paid out of the rewards pool
 	Unowned  map[string]*big.Rat            // rewards allocated to validators on which no started asset had stake (nobody is entitled)
 	Idx      map[string]map[string]*big.Rat // position key -> reward denom -> per-token index increments since its last claim
-	Skew     map[string]string               // positions whose validator had unsettled rewards while an asset total changed elsewhere
+	Skew     map[string]string              // positions whose validator had unsettled rewards while an asset total changed elsewhere
 }
 
 func newRewRef() *rewRef {
